@@ -93,11 +93,16 @@ def _mk(role, exch, k, sched=None, net=None, t=None, dribble=False, size=300, ca
     return sc
 
 
-def _flood_after_abort(t, gap, sched=None):
+def _flood_after_abort(t, gap, sched=None, pdu="echo_rq"):
+    """`pdu`: what the peer floods with once the local side has aborted - P-DATA (ignored in Sta13, AA-6), or
+    A-ASSOCIATE-RQ / unrecognised PDUs (each answered with another A-ABORT, AA-7)."""
     ae = {"acse": t, "dimse": 4 * t, "network": 8 * t, "connection": t, "echo_act": "abort"}
     n = int(5 * t / gap)
+    fl = {"do": "flood", "pdu": pdu, "n": n, "gap": gap}
+    if pdu == "unknown":
+        fl["type"] = 0xFF
     peer = [{"do": "send", "pdu": "rq"}, {"do": "expect", "types": [2, 3, 7], "t": 0.3}, {"do": "send", "pdu": "echo_rq"},
-            {"do": "flood", "pdu": "echo_rq", "n": n, "gap": gap}, {"do": "drain", "t": 2 * t}, {"do": "close"}]
+            fl, {"do": "drain", "t": 2 * t}, {"do": "close"}]
     return {"role": "acceptor", "exch": "flood", "budget": None, "ae": ae, "peer": peer, "user": [], "flood_after_abort": True,
             "sched": sched or {"switch_pct": 30}, "net": {"seg": "whole", "recv_cost": 0.001}}
 
@@ -120,7 +125,8 @@ def directed(tier):
     # path busy for five ARTIM periods (each recv() costs the provider 1 ms): only the ARTIM timer gets it out of Sta13
     for t in (0.05, 0.1):
         for gap in (0.0003, 0.0008):
-            out.append(_flood_after_abort(t, gap))
+            for pdu in ("echo_rq", "rq", "unknown"):
+                out.append(_flood_after_abort(t, gap, pdu=pdu))
     # peer accepts the association and then neither reads nor writes: a C-STORE larger than the connection's
     # buffering blocks in send()
     ac_len = boundaries("requestor", "store")[0]
@@ -142,7 +148,8 @@ def gen(rng, idx, tier):
     total = stream_len(role, exch)
     k = rng.randrange(0, total + 1)
     if rng.randrange(12) == 0:
-        return _flood_after_abort(rng.choice([0.05, 0.1]), rng.choice([0.0002, 0.0005, 0.0009]), sched=C.gen_sched(rng))
+        return _flood_after_abort(rng.choice([0.05, 0.1]), rng.choice([0.0002, 0.0005, 0.0009]), sched=C.gen_sched(rng),
+                                  pdu=rng.choice(["echo_rq", "rq", "unknown"]))
     size, cap = 300, None
     if rng.randrange(4) == 0:
         size, cap = rng.choice([3000, 20000, 70000]), rng.choice([256, 1024, 4096, 16384])
